@@ -1,5 +1,4 @@
 use crate::models::{LengthConstraint, RangeConstraint, ValidatorAttributes};
-use quote::ToTokens;
 use syn::Attribute;
 
 /// Parser for validator attributes from Rust struct fields
@@ -26,29 +25,41 @@ impl ValidatorParser {
         for attr in attrs {
             if attr.path().is_ident("validate") {
                 found_validator = true;
-                // Parse the tokens inside the validate attribute
-                if let Ok(tokens) = syn::parse2::<syn::MetaList>(attr.meta.to_token_stream()) {
-                    // Convert tokens to string and do basic parsing for now
-                    let tokens_str = tokens.tokens.to_string();
-
-                    if tokens_str.contains("email") {
+                // Walk the attribute's meta items with syn. Searching the attribute's text found
+                // validators inside messages ("email", "url"), cut messages at the first ')' or
+                // ',', lost negative bounds ("- 1") and sliced multi-byte messages in the middle
+                // of a character.
+                let _ = attr.parse_nested_meta(|meta| {
+                    if meta.path.is_ident("email") {
                         validator_attrs.email = true;
-                    }
-
-                    if tokens_str.contains("url") {
+                        if let Some(message) = Self::parse_validator_args(&meta)?.2 {
+                            validator_attrs.custom_message = Some(message);
+                        }
+                    } else if meta.path.is_ident("url") {
                         validator_attrs.url = true;
+                        if let Some(message) = Self::parse_validator_args(&meta)?.2 {
+                            validator_attrs.custom_message = Some(message);
+                        }
+                    } else if meta.path.is_ident("length") {
+                        let (min, max, message) = Self::parse_validator_args(&meta)?;
+                        let as_len = |v: Option<f64>| {
+                            v.filter(|x| *x >= 0.0 && x.fract() == 0.0)
+                                .map(|x| x as u64)
+                        };
+                        validator_attrs.length = Some(LengthConstraint {
+                            min: as_len(min),
+                            max: as_len(max),
+                            message,
+                        });
+                    } else if meta.path.is_ident("range") {
+                        let (min, max, message) = Self::parse_validator_args(&meta)?;
+                        validator_attrs.range = Some(RangeConstraint { min, max, message });
+                    } else {
+                        // validators this tool does not translate: skip their arguments
+                        Self::skip_meta_value(&meta)?;
                     }
-
-                    // Parse length constraints
-                    if let Some(length_constraint) = self.parse_length_from_tokens(&tokens_str) {
-                        validator_attrs.length = Some(length_constraint);
-                    }
-
-                    // Parse range constraints
-                    if let Some(range_constraint) = self.parse_range_from_tokens(&tokens_str) {
-                        validator_attrs.range = Some(range_constraint);
-                    }
-                }
+                    Ok(())
+                });
             }
         }
 
@@ -59,7 +70,66 @@ impl ValidatorParser {
         }
     }
 
+    /// Read `(min = .., max = .., message = "..")` following a validator name, if present
+    fn parse_validator_args(
+        meta: &syn::meta::ParseNestedMeta,
+    ) -> syn::Result<(Option<f64>, Option<f64>, Option<String>)> {
+        let mut min = None;
+        let mut max = None;
+        let mut message = None;
+        if meta.input.peek(syn::token::Paren) {
+            meta.parse_nested_meta(|arg| {
+                if arg.path.is_ident("min") {
+                    let value: syn::Expr = arg.value()?.parse()?;
+                    min = Self::numeric_value(&value);
+                } else if arg.path.is_ident("max") {
+                    let value: syn::Expr = arg.value()?.parse()?;
+                    max = Self::numeric_value(&value);
+                } else if arg.path.is_ident("message") {
+                    let value: syn::LitStr = arg.value()?.parse()?;
+                    message = Some(value.value());
+                } else {
+                    Self::skip_meta_value(&arg)?;
+                }
+                Ok(())
+            })?;
+        } else if meta.input.peek(syn::Token![=]) {
+            let _: syn::Expr = meta.value()?.parse()?;
+        }
+        Ok((min, max, message))
+    }
+
+    /// Consume `= value` or `(...)` after a meta item that is not interpreted
+    fn skip_meta_value(meta: &syn::meta::ParseNestedMeta) -> syn::Result<()> {
+        if meta.input.peek(syn::Token![=]) {
+            let _: syn::Expr = meta.value()?.parse()?;
+        } else if meta.input.peek(syn::token::Paren) {
+            let content;
+            syn::parenthesized!(content in meta.input);
+            let _: proc_macro2::TokenStream = content.parse()?;
+        }
+        Ok(())
+    }
+
+    /// Numeric literal (integer or float, optionally negated) as f64
+    fn numeric_value(expr: &syn::Expr) -> Option<f64> {
+        match expr {
+            syn::Expr::Lit(lit) => match &lit.lit {
+                syn::Lit::Int(i) => i.base10_parse::<f64>().ok(),
+                syn::Lit::Float(f) => f.base10_parse::<f64>().ok(),
+                _ => None,
+            },
+            syn::Expr::Unary(unary) if matches!(unary.op, syn::UnOp::Neg(_)) => {
+                Self::numeric_value(&unary.expr).map(|v| -v)
+            }
+            syn::Expr::Paren(paren) => Self::numeric_value(&paren.expr),
+            syn::Expr::Group(group) => Self::numeric_value(&group.expr),
+            _ => None,
+        }
+    }
+
     /// Parse length constraints from validator tokens
+    #[cfg_attr(not(test), allow(dead_code))]
     fn parse_length_from_tokens(&self, tokens: &str) -> Option<LengthConstraint> {
         if !tokens.contains("length") {
             return None;
@@ -123,6 +193,7 @@ impl ValidatorParser {
     }
 
     /// Parse range constraints from validator tokens
+    #[cfg_attr(not(test), allow(dead_code))]
     fn parse_range_from_tokens(&self, tokens: &str) -> Option<RangeConstraint> {
         if !tokens.contains("range") {
             return None;
@@ -187,6 +258,7 @@ impl ValidatorParser {
 
     /// Parse message parameter from validator content
     /// Handles both "message = \"text\"" and "message = 'text'" formats
+    #[cfg_attr(not(test), allow(dead_code))]
     fn parse_message_from_content(&self, content: &str) -> Option<String> {
         if let Some(msg_pos) = content.find("message") {
             if let Some(eq_pos) = content[msg_pos..].find('=') {
